@@ -1,7 +1,7 @@
 (* C04 — property theorems.  Only statements, each closed by [exact], each followed by
    Print Assumptions. *)
 From Coq Require Import ZArith List Bool.
-From Centro Require Import Base.Sx Model.Recon Spec.ReconSpec Spec.ReconInv Proofs.ReconSound Proofs.ReconLoop.
+From Centro Require Import Base.Sx Model.Recon Spec.ReconSpec Spec.ReconInv Proofs.ReconSound Proofs.ReconLoop Proofs.ReconPrep.
 Open Scope Z_scope.
 
 (* Full.  Any image R (e.g. the implementation's output) accepted by the extracted checker,
@@ -44,10 +44,10 @@ Print Assumptions C04_recon_iter_sound.
    index safety — no read or write of values/prev/next leaves [0, 2S) (the model's checked
    accesses never yield Oob) — and link_has_successor — the relink never finds next[link] < 0,
    so no node is ever dropped (drops unchanged); Inv is preserved. *)
-Theorem C04_loop_safe : forall g K v0, geom_ok g -> forall strides, Forall (stride_ok g) strides ->
-  forall fuel cur s, Inv g K v0 s -> -1 <= cur < 2 * gS g ->
+Theorem C04_loop_safe : forall g K v0 strides, geom_ok g -> Forall (stride_ok g) strides ->
+  forall fuel cur s, Inv g K strides v0 s -> -1 <= cur < 2 * gS g ->
   match loop fuel (gS g) strides cur s with
-  | Ok s' => Inv g K v0 s' /\ drops s' = drops s
+  | Ok s' => Inv g K strides v0 s' /\ drops s' = drops s
   | OutOfFuel => True
   | Oob => False
   | Rejected => False
@@ -56,7 +56,7 @@ Proof. exact loop_safe. Qed.
 Print Assumptions C04_loop_safe.
 
 (* Full: the boolean invariant checker is sound (it is evaluated on the set-up state of every case). *)
-Theorem C04_inv_check_sound : forall g K s, inv_check g K s = true -> Inv g K (vals s) s.
+Theorem C04_inv_check_sound : forall g K strides s, inv_check g K s = true -> Inv g K strides (vals s) s.
 Proof. exact inv_check_sound. Qed.
 Print Assumptions C04_inv_check_sound.
 
@@ -83,11 +83,22 @@ Print Assumptions C04_model_safe_partial.
    value and the mask plane (first third of IsRecon).  Missing: the list stays value-sorted and a
    visited node is final (closed + least); covered per instance by recon_check on every case. *)
 Theorem C04_loop_between_partial : forall g K v0 strides, geom_ok g -> Forall (stride_ok g) strides ->
-  forall fuel cur s s', Inv g K v0 s -> -1 <= cur < 2 * gS g ->
+  forall fuel cur s s', Inv g K strides v0 s -> -1 <= cur < 2 * gS g ->
   loop fuel (gS g) strides cur s = Ok s' ->
   forall i, 0 <= i < gS g -> sel v0 i <= sel (vals s') i <= sel v0 (i + gS g).
 Proof. exact loop_between. Qed.
 Print Assumptions C04_loop_between_partial.
+
+(* Partial (second third of recon_loop_correct, in flat/rank space): the loop's result lies below
+   every image above the initial image plane that no dilate-and-clip step along the stride table
+   can raise; so it never overshoots the reconstruction.  With C04_loop_between_partial only
+   "closed" (the result cannot be raised any more) remains; see recon_loop_closed in reports/C04.md. *)
+Theorem C04_loop_least_partial : forall g K v0 strides, geom_ok g -> Forall (stride_ok g) strides ->
+  forall fuel cur s s', Inv g K strides v0 s -> -1 <= cur < 2 * gS g ->
+  loop fuel (gS g) strides cur s = Ok s' ->
+  forall U, flat_postfixed g strides v0 U -> forall i, 0 <= i < gS g -> sel (vals s') i <= U i.
+Proof. exact loop_least. Qed.
+Print Assumptions C04_loop_least_partial.
 
 (* Full.  The idempotence clause on grids: an output accepted by the checker is the
    reconstruction of itself under the same mask, and any reconstruction of it equals it. *)
@@ -107,3 +118,77 @@ Theorem C04_prepare_strides_ok : forall image mask fp,
   Forall (stride_ok (prep_geom (prepare image mask fp))) (p_strides (prepare image mask fp)).
 Proof. exact prepare_strides_ok. Qed.
 Print Assumptions C04_prepare_strides_ok.
+
+(* ---- round 2 ---- *)
+(* Full.  Checker soundness for an arbitrary offset list (explicit `offset` argument, even-sized
+   footprints): the wire entry evaluates recon_check_offs on fp_offsets_at fp o0 o1. *)
+Theorem C04_recon_check_offs_sound : forall seed mask offs R lvl,
+  recon_check_offs seed mask offs R lvl = true -> GridReconOffs seed mask offs R.
+Proof. exact recon_check_offs_sound. Qed.
+Print Assumptions C04_recon_check_offs_sound.
+
+(* Full (given the per-instance boolean premise): the run of ANY set-up state that passes
+   prep_check — in particular grey_reconstruction_off with an explicit origin — is memory safe
+   and drops no node. *)
+Theorem C04_run_prep_safe : forall p, prep_check p = true ->
+  match run_prep p with
+  | Ok (out, d) => d = 0 /\ zlen out = p_H p
+  | OutOfFuel => True
+  | Oob => False
+  | Rejected => False
+  end.
+Proof. exact run_prep_safe. Qed.
+Print Assumptions C04_run_prep_safe.
+
+(* Full (layer "merge sort + link_pairs + rank_order establish Inv"): for every geometry with
+   padding >= 1 and EVERY flat value list of length 2S whose non-interior cells carry the minimum
+   in both planes and whose image plane is below its mask plane, the state built by the stdlib
+   merge sort on (value desc, index asc), link_pairs and the C18 rank_order satisfies Inv, the
+   start node is in range and value_map covers all ranks.  Uses Proofs.RankC18Proofs.rank_order_iso. *)
+Theorem C04_setup_inv : forall g strides values mn,
+  geom_ok g -> zlen values = 2 * gS g ->
+  let val := fun i => nth (Z.to_nat i) values 0 in
+  (forall i, 0 <= i < gS g -> interior_b g i = false -> val i = mn /\ val (i + gS g) = mn) ->
+  (forall j, 0 <= j < 2 * gS g -> mn <= val j) ->
+  (forall i, 0 <= i < gS g -> val i <= val (i + gS g)) ->
+  let s := setup_state values in
+  let K := zlen (snd (rank_order values)) in
+  Inv g K strides (vals s) s /\ -1 <= hd (-1) (vorder values) < 2 * gS g /\
+  inrange (of_list (snd (rank_order values))) K /\ drops s = 0.
+Proof. exact setup_inv. Qed.
+Print Assumptions C04_setup_inv.
+
+(* Partial (towards an unconditional C04_model_safe).  The whole model — prepare, loop, gather,
+   any offset list within the padding — never accesses out of bounds and never drops a node, with
+   NO per-instance boolean premise, given three value-level facts about the padded list.  Missing
+   lemma: padded_values_facts : accepted image mask fp = true -> 3 <= zlen fp -> 3 <= width fp ->
+   the three facts (from nth_padded_plane, which IS proved, plus all_le -> cellwise <= and
+   img_min <= every cell).  values_facts_b is the finite form, true on the example. *)
+Theorem C04_prepare_safe_from_values_partial : forall image mask fp offs,
+  let p := prepare_offs image mask fp offs in
+  let g := prep_geom p in
+  let values := prep_values image mask fp in
+  let val := fun i => nth (Z.to_nat i) values 0 in
+  geom_ok g -> Forall (stride_ok g) (p_strides p) ->
+  (forall i, 0 <= i < gS g -> interior_b g i = false ->
+     val i = img_min image /\ val (i + gS g) = img_min image) ->
+  (forall j, 0 <= j < 2 * gS g -> img_min image <= val j) ->
+  (forall i, 0 <= i < gS g -> val i <= val (i + gS g)) ->
+  match run_prep p with
+  | Ok (out, d) => d = 0 /\ zlen out = zlen image
+  | OutOfFuel => True
+  | Oob => False
+  | Rejected => False
+  end.
+Proof. exact prepare_safe_from_values. Qed.
+Print Assumptions C04_prepare_safe_from_values_partial.
+
+(* Full.  The padded planes as the wrapper lays them out: cell i of a plane is the image cell
+   (i / PW - p0, i mod PW - p1) inside the interior and the fill value in the padding. *)
+Theorem C04_nth_padded_plane : forall H W p0 p1 fill gimg i, 1 <= H -> 1 <= W -> 0 <= p0 -> 0 <= p1 ->
+  let g := mkgeom H W p0 p1 in
+  0 <= i < gS g ->
+  nth (Z.to_nat i) (padded_plane H W p0 p1 fill gimg) 0 =
+  if interior_b g i then img_get gimg (i / gPW g - p0) (i mod gPW g - p1) else fill.
+Proof. exact nth_padded_plane. Qed.
+Print Assumptions C04_nth_padded_plane.
